@@ -601,7 +601,10 @@ func ExecutePlan(plan *Plan, p ExecuteParams) (result *Result) {
 
 	extErrs, executionFinishFn := handleExtensionsExecutionDidStart(&p)
 	if len(extErrs) != 0 {
-		return &Result{Errors: extErrs}
+		// finish the execution phase of the extensions that did start it
+		res := &Result{Errors: extErrs}
+		res.Errors = append(res.Errors, executionFinishFn(res)...)
+		return res
 	}
 	defer func() {
 		extErrs := executionFinishFn(result)
